@@ -8,6 +8,7 @@ import (
 	"encoding/base64"
 	"encoding/json"
 	"fmt"
+	"github.com/mandykoh/prism/meta/icc"
 	"io"
 	"strings"
 
@@ -26,6 +27,7 @@ type c08Case struct {
 	Schedule  string   `json:"schedule"`
 	SchedSeed uint64   `json:"schedule_seed"`
 	File      string   `json:"input_base64"`
+	File2     string   `json:"second_input_base64,omitempty"`
 }
 
 var c08FixedSchedules = []string{"1", "2", "3", "7", "8", "4095", "4096", "4097", "data+eof", "1+data+eof", "4096+data+eof", "zero-nil", "zero-nil-3+all", "kind:1", "kind:2", "kind:3", "kind:4", "kind:5", "kind:6", "kind:7"}
@@ -411,12 +413,168 @@ func runC08(r *core.Run) {
 		}
 		r.AddEvals(n)
 	})
+	// streams of two or three profiles (with and without padding up to the size the header declares,
+	// and with garbage between them), read by successive ReadProfile calls on one reader
+	{
+		rg := core.NewRNG(r.Seed, "C08", "icc-seq")
+		nseq := 60
+		if r.Thorough() {
+			nseq = 1500
+		}
+		type seqIn struct {
+			name string
+			data []byte
+		}
+		var seqs []seqIn
+		for i := 0; i < nseq; i++ {
+			var data []byte
+			name := ""
+			for k := 0; k < 2+rg.Intn(2); k++ {
+				pb := structuredProfile(rg, rg.Intn(2))
+				pad := []int{0, 0, 1, 2, 3, 4, 16, 100}[rg.Intn(8)]
+				switch rg.Intn(3) {
+				case 0: // padding that the header's size field covers
+					pb = append(pb, make([]byte, pad)...)
+					sz := uint32(len(pb))
+					pb[0], pb[1], pb[2], pb[3] = byte(sz>>24), byte(sz>>16), byte(sz>>8), byte(sz)
+					name += fmt.Sprintf("[profile+%d declared] ", pad)
+				case 1: // bytes between the profiles that no size field covers
+					pb = append(pb, rg.Bytes(pad)...)
+					name += fmt.Sprintf("[profile+%d undeclared] ", pad)
+				default:
+					name += "[profile] "
+				}
+				data = append(data, pb...)
+			}
+			seqs = append(seqs, seqIn{name, data})
+		}
+		fronts := append([]string{"bytes.Buffer"}, c08ICCFronts...)
+		core.ParallelFor(len(seqs), 16, func(i int) {
+			for fi, front := range fronts {
+				if kind, msg := c08CheckICCSeq(seqs[i].data, front, seeds[(i+fi)%len(seeds)]); kind != "" {
+					r.Violate("icc", "icc-seq/"+kind+"/"+front, seqs[i].name+": "+msg, c08Case{Name: seqs[i].name, Kind: "icc-seq", Schedule: front, SchedSeed: seeds[(i+fi)%len(seeds)], File: base64.StdEncoding.EncodeToString(seqs[i].data)})
+				}
+			}
+			r.AddEvals(int64(len(fronts)))
+		})
+		r.Obs("profile_streams_read_by_successive_calls", len(seqs))
+	}
+	// what a caller keeps from one load is looked at again after the next load of the same kind, per
+	// delivery schedule, on one goroutine (scratch memory handed back to a pool is handed out again to
+	// the next load on the same thread): the kept profile bytes must not depend on the schedule either
+	{
+		byFormat := map[string][]int{}
+		for i, f := range files {
+			if f.format == "PNG" || f.format == "JPEG" || f.format == "WebP" {
+				if s := summarise(loadWith("autometa", bytes.NewReader(f.bytes))); s.OK && s.HasICC && len(f.bytes) < 70000 {
+					byFormat[f.format] = append(byFormat[f.format], i)
+				}
+			}
+		}
+		pairs := 0
+		for _, format := range []string{"PNG", "JPEG", "WebP"} {
+			idx := byFormat[format]
+			limit := 60
+			if r.Thorough() {
+				limit = 400
+			}
+			for k := 0; k+1 < len(idx) && k < limit; k++ {
+				a, b := files[idx[k]], files[idx[k+1]]
+				for _, loader := range []string{"autometa", loaderFor(format)} {
+					if sc, msg := c08KeptCheck(a.bytes, b.bytes, loader, seeds[k%len(seeds)]); sc != "" {
+						r.Violate("loader", loader+"/kept-differs/"+sc, a.name+" then "+b.name+": "+msg, c08Case{Name: a.name, Kind: "kept", Loader: loader, Schedule: sc, SchedSeed: seeds[k%len(seeds)], File: base64.StdEncoding.EncodeToString(a.bytes), File2: base64.StdEncoding.EncodeToString(b.bytes)})
+					}
+					pairs++
+				}
+			}
+		}
+		r.AddEvals(int64(pairs * len(c08KeptScheds)))
+		r.Obs("kept_result_pairs", pairs)
+	}
 	r.Obs("input_files", len(files))
 	r.Obs("input_profiles", len(profiles))
 	r.Obs("schedules", scheds)
 	r.Obs("icc_reader_fronts", c08ICCFronts)
 	r.Sample(map[string]any{"input": files[0].name, "bytes": len(files[0].bytes), "schedule": "random17"})
 	r.Sample(map[string]any{"input": profiles[0].name, "bytes": len(profiles[0].bytes), "front": "bufio16/7"})
+}
+
+// iccSeqSummarise calls ReadProfile three times on one ProfileReader and summarises each outcome.
+func iccSeqSummarise(r interface {
+	io.Reader
+	io.ByteReader
+}) (out [3]iccSummary) {
+	var pr *icc.ProfileReader
+	for i := range out {
+		func() {
+			defer func() {
+				if x := recover(); x != nil {
+					out[i].Panic = fmt.Sprint(x)
+				}
+			}()
+			if pr == nil {
+				pr = icc.NewProfileReader(r)
+			}
+			p, err := pr.ReadProfile()
+			if err != nil || p == nil {
+				if err != nil {
+					out[i].ErrText = err.Error()
+				}
+				return
+			}
+			out[i].OK = true
+			out[i].Header = fmt.Sprintf("%+v", p.Header)
+			d, derr, dpan := description(p)
+			if dpan != nil {
+				out[i].Panic = fmt.Sprint(dpan)
+				return
+			}
+			out[i].DescOK, out[i].Desc = derr == nil, d
+		}()
+	}
+	return
+}
+
+// c08CheckICCSeq: a stream of several profiles read by successive ReadProfile calls on one reader.
+func c08CheckICCSeq(data []byte, front string, seed uint64) (kind, msg string) {
+	base := iccSeqSummarise(bytes.NewReader(data))
+	var got [3]iccSummary
+	if front == "bytes.Buffer" {
+		got = iccSeqSummarise(bytes.NewBuffer(append([]byte{}, data...)))
+	} else {
+		r, _ := c08ICCFront(data, front, seed)
+		got = iccSeqSummarise(r)
+	}
+	for i := range got {
+		if got[i].Panic != "" && base[i].Panic == "" {
+			return "panic", fmt.Sprintf("ICC reader panicked behind %s in ReadProfile call #%d: %s", front, i+1, got[i].Panic)
+		}
+		if !got[i].same(base[i]) {
+			return "differs", fmt.Sprintf("ICC reader, ReadProfile call #%d on the same reader: bytes.Reader gives ok=%v desc=%q err=%q; behind %s gives ok=%v desc=%q err=%q", i+1, base[i].OK, base[i].Desc, base[i].ErrText, front, got[i].OK, got[i].Desc, got[i].ErrText)
+		}
+	}
+	return "", "ok"
+}
+
+var c08KeptScheds = []string{"all", "1", "7", "4096", "random17", "data+eof", "4096+data+eof"}
+
+// c08KeptCheck loads a, then b twice, under each schedule, and compares what the caller still
+// holds of a's profile bytes afterwards across the schedules.
+func c08KeptCheck(a, b []byte, loader string, seed uint64) (sched, msg string) {
+	var first uint64
+	for si, sc := range c08KeptScheds {
+		sa := summarise(loadWith(loader, c08Source(a, sc, seed+uint64(si))))
+		for rep := 0; rep < 2; rep++ {
+			_ = summarise(loadWith(loader, c08Source(b, sc, seed+uint64(si)+1)))
+		}
+		kept := fnv64(sa.icc)
+		if si == 0 {
+			first = kept
+		} else if kept != first {
+			return sc, fmt.Sprintf("the profile bytes kept from %s.Load, looked at after two further loads delivered the same way, hash to %#x under schedule %s and to %#x under schedule %s (at load time: %#x)", loader, first, c08KeptScheds[0], kept, sc, sa.ICCHash)
+		}
+	}
+	return "", "ok"
 }
 
 func replayC08(stage string, raw json.RawMessage) (bool, string, error) {
@@ -427,6 +585,18 @@ func replayC08(stage string, raw json.RawMessage) (bool, string, error) {
 	b, err := base64.StdEncoding.DecodeString(cs.File)
 	if err != nil {
 		return false, "", err
+	}
+	if cs.Kind == "icc-seq" {
+		k, m := c08CheckICCSeq(b, cs.Schedule, cs.SchedSeed)
+		return k != "", m, nil
+	}
+	if cs.Kind == "kept" {
+		b2, err := base64.StdEncoding.DecodeString(cs.File2)
+		if err != nil {
+			return false, "", err
+		}
+		sc, m := c08KeptCheck(b, b2, cs.Loader, cs.SchedSeed)
+		return sc != "", m, nil
 	}
 	if cs.Kind == "icc" {
 		k, m, _ := c08CheckICC(b, cs.Schedule, cs.SchedSeed, cs.Accept)
